@@ -327,8 +327,34 @@ def _torn(draw):
             'on_miss': 'none', 'init': [[0, x0], [1, x1]], 'programs': progs, 'multi': []}
 
 
+@st.composite
+def _same_key(draw):
+    """both threads work on ONE key: a check-then-act operation (setdefault, a lookup that loads through on_miss, pop, update)
+    against writers/removers of the same key - the races a missing lock around a compound operation opens"""
+    k = draw(st.sampled_from([0, 1]))
+    v = st.integers(0, 3)
+    compound = st.one_of(
+        st.tuples(st.just('setdefault'), st.just(k), v), st.tuples(st.just('setdefault'), st.just(k), v),
+        st.tuples(st.just('getitem'), st.just(k)), st.tuples(st.just('get'), st.just(k)),
+        st.tuples(st.just('pop'), st.just(k)), st.tuples(st.just('update'), st.just(k), st.sampled_from([0, 1, 2]), v),
+        st.tuples(st.just('update_kw'), st.just(k), st.sampled_from([0, 1, 2]), v), st.tuples(st.just('contains'), st.just(k)),
+    ).map(list)
+    simple = st.one_of(
+        st.tuples(st.just('set'), st.just(k), v), st.tuples(st.just('set'), st.just(k), v), st.tuples(st.just('del'), st.just(k)),
+        st.tuples(st.just('pop'), st.just(k)), st.tuples(st.just('setdefault'), st.just(k), v), st.tuples(st.just('set'), st.just(2), v),
+        st.tuples(st.just('clear')),
+    ).map(list)
+    progs = [draw(st.lists(compound, min_size=1, max_size=2)), draw(st.lists(simple, min_size=1, max_size=2))]
+    if draw(st.booleans()):
+        progs.append(draw(st.lists(st.one_of(compound, simple), min_size=1, max_size=2)))
+    return {'sub': 'sched', 'cls': draw(st.sampled_from(['LRI', 'LRU'])), 'max_size': draw(st.sampled_from([1, 2, 2])),
+            'on_miss': draw(st.sampled_from(['none', 'none', 'tuple'])),
+            'init': draw(st.sampled_from([[], [[k, 0]], [[2, 0]], [[2, 0]]])), 'programs': progs,
+            'multi': draw(st.lists(st.lists(st.tuples(st.integers(1, 400), st.integers(0, 2)).map(list), min_size=2, max_size=3), max_size=6))}
+
+
 def strat(tier):
-    return st.integers(0, 7).flatmap(lambda i: _torn() if i == 0 else _strat_general(tier))
+    return st.integers(0, 7).flatmap(lambda i: _torn() if i == 0 else (_same_key() if i in (1, 2, 3) else _strat_general(tier)))
 
 
 def _strat_general(tier):
